@@ -62,7 +62,8 @@ def run(ctx):
     quick = ctx.tier == "quick"
     ctx.rule = ("structured generation: ids from {0,1,0x7FFF,0x8000,0xFFFE,0xFFFF} + random, every message type x return code, payload "
                 "lengths {0,1,2,7,8,9,15,16,17,255,256,4095,4096,65527..65537} + random, suffixes (empty / random / valid message / "
-                "corrupted message), 1-12 messages per datagram, out-of-width fields, header mutations (version/type/code/length); "
+                "corrupted message), 1-12 messages per datagram, out-of-width fields, header mutations (version/type/code/length); sequences of datagrams "
+                "of several senders through ONE protocol object with identical messages and messages repeating the ids of their predecessor; "
                 "a case is non-trivial when it is a distinct (kind, input) whose build or parse succeeds or fails with a classified error")
     ctx.assumptions = ["messages are values of the library's own types (enum-typed message type / return code); payload bytes"]
     cases, impl, descr = [], [], []
@@ -156,6 +157,44 @@ def run(ctx):
         impl.append([got, None if bad_at is None else [1]])
         descr.append(("datagram", k))
         ctx.case(("dg", data), kind="datagram-%s" % ("clean" if bad_at is None else "corrupted"))
+    # one protocol object, several datagrams of several senders, messages drawn from a SMALL pool: identical messages and
+    # messages repeating the ids of the previous one (other payload / return code / type) follow each other
+    import random
+    r2 = random.Random(ctx.seed * 7919 + 1)       # a stream of its own: the cases above stay what they were
+    for k in range(150 if quick else 4000):
+        base = gen.message(r2, maxlen=24)
+        pool = [base]
+        for _ in range(r2.randint(1, 3)):
+            c = r2.random()
+            if c < 0.3:
+                pool.append(base)
+            elif c < 0.5:
+                pool.append(H.SOMEIPHeader(base.service_id, base.method_id, base.client_id, base.session_id, base.interface_version, base.message_type, 1,
+                                           base.return_code, bytes(r2.getrandbits(8) for _ in range(r2.randint(0, 9)))))
+            elif c < 0.65:
+                pool.append(H.SOMEIPHeader(base.service_id, base.method_id, base.client_id, base.session_id, base.interface_version, base.message_type, 1,
+                                           r2.choice(list(H.SOMEIPReturnCode)), base.payload))
+            elif c < 0.8:
+                pool.append(H.SOMEIPHeader(base.service_id, base.method_id, base.client_id, base.session_id, base.interface_version,
+                                           r2.choice(list(H.SOMEIPMessageType)), 1, base.return_code, base.payload))
+            else:
+                pool.append(gen.message(r2, maxlen=24))
+        rec = Recorder()
+        senders = [("10.0.0.9", 30490), ("10.0.0.9", 30491), ("2001:db8::7", 30490, 0, 0)]
+        for _ in range(r2.randint(1, 4)):
+            ms = [r2.choice(pool) for _ in range(r2.randint(1, 5))]
+            data = b"".join(bytes(m.build()) for m in ms)
+            before = len(rec.got)
+            rec.datagram_received(data, r2.choice(senders[:2] if r2.random() < 0.8 else senders), r2.random() < 0.2)
+            got = [conv.s_msg(m) for m in rec.got[before:]]
+            expect = [conv.s_msg(m) for m in ms]
+            if got != expect:
+                ctx.violation("datagram_received did not deliver exactly the concatenated messages in order (repeated messages / ids, one protocol object)",
+                              dict(datagram=data.hex()[:4000], delivered=len(got), expected=len(expect), earlier_messages=before))
+            cases.append((103, data))
+            impl.append([got, None])
+            descr.append(("datagram-seq", k))
+            ctx.case(("dgs", k, before, data), kind="datagram-repeats")
     outs = compare(ctx, cases, impl, "SOMEIPHeader build/parse/datagram loop differs from Model/Someip.v", lambda i: repr(descr[i]))
     # layout: implementation bytes versus the extracted Gallina spec_layout
     lay = ctx.model.batch([(111, sm) for _, sm, _ in layout_cases])
